@@ -337,9 +337,9 @@ HEnv(e) ==
    query being sent is requeued with one more try; which query it was is inferred at the notification *)
 OpenFailed(e) ==
   LET tcpopen == IF e.op = "open" THEN e.tcp = 1 ELSE (e.fd \in DOMAIN fdi /\ fdi[e.fd].tcp) IN
-  \* not modelled: a second failure before the first is attributed, and failures while several queries wait to be
-  \* sent (which of them made the attempt cannot be told from the trace)
-  IF openfail # "" \/ Cardinality({id \in DOMAIN q : q[id].st = "tosend"}) > 1 THEN OutOfScope
+  \* not modelled: a second failure before the first is attributed.  Which of several waiting queries made the attempt
+  \* cannot be told from the trace: the notification explores every candidate (HSrv)
+  IF openfail # "" THEN OutOfScope
   \* a TCP connection attempt that fails while removed servers are still being destroyed: which server's queued
   \* queries it concerns is not modelled
   ELSE IF tcpopen /\ Dying # {} THEN OutOfScope
@@ -390,11 +390,21 @@ HSrv(e) ==
            fresh == {t \in DOMAIN newtry : Live(t, 1) = {} /\ \A id \in DOMAIN q : q[id].t # t}
            wok == {id \in waiting : IF q[id].reqsrv # 0 THEN q[id].reqsrv = e.s ELSE FreshChoiceOk(e.s)}
            fok == IF (cfg.usevc = 1) = (openfail = "tcp") /\ FreshChoiceOk(e.s) THEN fresh ELSE {}
+           \* or the probe copy that accompanies a first attempt just made to another server (it has no record yet and
+           \* is never retried: only the server is demoted again)
+           pok == /\ cfg.retrychance # 0 /\ srv[e.s].fails > 0 /\ now >= srv[e.s].nextRetry
+                  /\ \E id \in DOMAIN q : /\ ~q[id].probe /\ q[id].try = 0
+                                          /\ \/ (q[id].st = "inflight" /\ q[id].srv # e.s /\ q[id].sentAt = now)
+                                             \/ (q[id].st = "tosend" /\ q[id].tcp)
        IN \* which attempt failed cannot always be told from the trace (a query waiting to be re-sent and a request
           \* just being started may both be candidates): every explanation is explored, one that is accepted suffices
-          IF waiting = {} /\ fresh = {} THEN OutOfScope
-          ELSE IF wok = {} /\ fok = {} THEN Rej("c09.connection_attempt_not_to_best_server")
-          ELSE \/ \E id \in wok :
+          IF waiting = {} /\ fresh = {} /\ ~pok THEN OutOfScope
+          ELSE IF wok = {} /\ fok = {} /\ ~pok THEN Rej("c09.connection_attempt_not_to_best_server")
+          ELSE \/ /\ pok
+                  /\ srv' = FailServer(e.s)
+                  /\ openfail' = ""
+                  /\ UNCHANGED <<cfg, now, fdi, q, owedF, owedO, proc, oos, toks, tcpin, newtry>> /\ Acc
+               \/ \E id \in wok :
                   /\ srv' = FailServer(e.s)
                   /\ q' = DropDoneProbes([q EXCEPT ![id] = Requeued(q[id], TRUE, "ECONNREFUSED")])
                   /\ openfail' = ""
